@@ -1432,7 +1432,19 @@ func c04BatchResponses(p *Prog, r *Report, R4 string, ne1, nk1, nk2 int64) {
 				// the length read must be behind ok == true
 				used := false
 				for _, rd := range sitesIn(rfn, func(n string) bool { return strings.HasSuffix(n, "cryptobyte.String).ReadBytes") }) {
-					if ex, ok := rd.Common().Args[2].(*ssa.Extract); ok && ex.Tuple == ssa.Value(c) && s.factsHaveCallSuccess(rd.Block(), c) {
+					lv := rd.Common().Args[2]
+					for {
+						// a widening conversion of the selected length (uint16 -> int) is the same length
+						cv, isConv := lv.(*ssa.Convert)
+						if !isConv || p.Sizes.Sizeof(cv.Type()) < p.Sizes.Sizeof(cv.X.Type()) {
+							break
+						}
+						if bt, ok := cv.X.Type().Underlying().(*types.Basic); !ok || bt.Info()&types.IsUnsigned == 0 {
+							break
+						}
+						lv = cv.X
+					}
+					if ex, ok := lv.(*ssa.Extract); ok && ex.Tuple == ssa.Value(c) && s.factsHaveCallSuccess(rd.Block(), c) {
 						used = true
 					}
 				}
